@@ -1,0 +1,27 @@
+//go:build verif
+
+package chunk
+
+// Hooks for the /verif correspondence harness (property C06). Add-only, built
+// only with the "verif" tag.
+
+// VerifBuzhashTable returns a copy of the buzhash byte table.
+func VerifBuzhashTable() [256]uint32 { return bytehash }
+
+// VerifBuzhashParams returns the buzhash constants (min, max, mask).
+func VerifBuzhashParams() (min, max int, mask uint32) { return buzMin, buzMax, buzMask }
+
+// VerifSplitterParams describes a splitter returned by FromString:
+// kind "size" (a = block size), "rabin" (a = MinSize, b = MaxSize of the
+// underlying chunker), "buzhash", or "other".
+func VerifSplitterParams(s Splitter) (kind string, a, b uint64) {
+	switch v := s.(type) {
+	case *sizeSplitterv2:
+		return "size", uint64(v.size), 0
+	case *Rabin:
+		return "rabin", v.r.MinSize, v.r.MaxSize
+	case *Buzhash:
+		return "buzhash", 0, 0
+	}
+	return "other", 0, 0
+}
